@@ -49,7 +49,7 @@ VCS_SUBCOMMANDS_BY_NAME = {
         'fetch'         : "git fetch",
         'ls_tags'       : "git tag --list",
         'ls_tags_branch': "git tag --list --merged",
-        'status'        : "git status --porcelain -z",
+        'status'        : "git status --porcelain -z --untracked-files=normal",
         'add_path'      : "git add --update -- '{path}'",
         'commit'        : "git commit --message '{message}'",
         'tag'           : "git tag --annotate {tag} --message '{message}'",
